@@ -18,8 +18,8 @@ def rawCopy (s : St) (dst src : Win) : Res St := do
       wr s (j + 1) vs
   wr s 0 vals
 
-/-- mask part of `copyDense`/`copyDenseIter`: the source mask is copied in *storage* order into a
-    destination mask (allocated when too small). -/
+/-- mask part of `copyDense` (both sides walked in storage order): the source mask is copied in
+    *storage* order into a destination mask (allocated when too small). -/
 def copyMask (s : St) (dst src : Dense) : Res (St × Dense) := do
   match src.mask with
   | none => pure (s, dst)
@@ -69,12 +69,37 @@ def copyIterOffsets (s : St) (dst src : Win) : List Int → List Int → Res St
 
 def sameOrder (a b : Dense) : Bool := a.ap.o.col == b.ap.o.col
 
+/-- `dmask[i] = smask[j]` pairwise along both (reset) iterators until either is exhausted -/
+def copyMaskOffsets (s : St) (dm sm : Win) : List Int → List Int → Res St
+  | i :: is, j :: js => do
+    let v ← s.mget sm j
+    let s ← s.mset dm i v
+    copyMaskOffsets s dm sm is js
+  | _, _ => .ok s
+
+/-- mask part of `copyDenseIter` on the iterator path (after the elements): when the source is
+    masked, a destination mask shorter than the destination data is replaced by a fresh one of the
+    data's length (old entries kept), then the mask is copied like the elements — entry by entry along
+    both iterators. -/
+def copyMaskIter (s : St) (dst src : Dense) (doffs soffs : List Int) : Res (St × Dense) := do
+  if !src.isMasked then pure (s, dst) else
+  let sm : Win := match src.mask with | some m => m | none => ⟨0, 0, 0, 0⟩
+  let dm0 : Win := match dst.mask with | some m => m | none => ⟨0, 0, 0, 0⟩
+  let (s, dst, dm) ← (if dm0.len < dst.win.len then do
+      -- dmask = make([]bool, dst.len()); copy(dmask, md.Mask()); md.SetMask(dmask)
+      let old ← (rangeI dm0.len).mapM (fun i => s.mget dm0 i)
+      let (s, b) := s.allocMask (old ++ List.replicate (dst.win.len - dm0.len) false).toArray
+      let dm : Win := ⟨b, 0, dst.win.len, dst.win.len⟩
+      pure (s, { dst with mask := some dm }, dm)
+    else pure (s, dst, dm0) : Res (St × Dense × Win))
+  let s ← copyMaskOffsets s dm sm doffs soffs
+  pure (s, dst)
+
 /-- `copyDenseIter(dst, src, nil, nil)` -/
 def copyDenseIter (s : St) (dst src : Dense) : Res (St × Dense) := do
   if !dst.requiresIterator && !src.requiresIterator && sameOrder dst src then copyDense s dst src else
-  let (s, dst) ← copyMask s dst src
   let s ← copyIterOffsets s dst.win src.win dst.offsets src.offsets
-  pure (s, dst)
+  copyMaskIter s dst src dst.offsets src.offsets
 
 /-- `Clone()` -/
 def clone (s : St) (t : Dense) : Res (St × Dense) := do
